@@ -149,6 +149,21 @@ pub fn special_relation_layers() -> Vec<(Sh, Simple)> {
     ]
 }
 
+/// spatial layers with MANY multiply-accumulates or output elements (beyond 2^14 / 2^15) and NON-SQUARE output planes
+/// (a flat-index split that confuses rows and columns shows only there): convolutions, a deconvolution, a max-pool
+pub fn big_nonsquare_layers() -> Vec<(Sh, Simple)> {
+    vec![
+        (Sh::Sp(2, 14, 44), Simple::Conv { filters: 4, kernel: (3, 3), stride: (1, 1), padding: (0, 0), dilation: (1, 1), act: Act::Linear, dropout: None }),
+        (Sh::Sp(1, 1, 571), Simple::Conv { filters: 8, kernel: (1, 9), stride: (1, 1), padding: (0, 0), dilation: (1, 1), act: Act::Tanh, dropout: None }),
+        (Sh::Sp(1, 32, 80), Simple::Conv { filters: 8, kernel: (1, 1), stride: (1, 1), padding: (0, 0), dilation: (1, 1), act: Act::Linear, dropout: None }),
+        (Sh::Sp(1, 80, 32), Simple::Conv { filters: 8, kernel: (1, 1), stride: (1, 1), padding: (0, 0), dilation: (1, 1), act: Act::Linear, dropout: None }),
+        (Sh::Sp(3, 40, 12), Simple::Conv { filters: 4, kernel: (3, 2), stride: (1, 1), padding: (1, 0), dilation: (1, 1), act: Act::Linear, dropout: None }),
+        (Sh::Sp(4, 31, 70), Simple::Deconv { filters: 2, kernel: (2, 2), stride: (1, 1), padding: (0, 0), act: Act::Linear, dropout: None }),
+        (Sh::Sp(8, 32, 80), Simple::Maxpool { kernel: (1, 1), stride: (1, 1) }),
+        (Sh::Sp(4, 66, 130), Simple::Maxpool { kernel: (2, 2), stride: (2, 2) }),
+    ]
+}
+
 #[derive(Clone)]
 pub struct GenOpts {
     pub acts: Vec<Act>,
